@@ -196,10 +196,14 @@ where
             }
             PeerPool::Validated(validated_hash) => {
                 if *validated_hash == data_hash {
-                    self.validated_pools
-                        .entry(data_hash)
-                        .or_default()
-                        .push(peer_id);
+                    let validated_peers = self.validated_pools.entry(data_hash).or_default();
+                    if validated_peers.contains(&peer_id) {
+                        // duplicate vote
+                        self.pending_events
+                            .push_back(Event::BlockPeers(vec![peer_id]));
+                        return;
+                    }
+                    validated_peers.push(peer_id);
                     self.pending_events
                         .push_back(Event::AddPeers(vec![peer_id]));
                 } else {
